@@ -31,6 +31,14 @@ def decoder_sweep(ctx, n):
             ctx.add('ed.decompress', enc.hex(), expect=['none'], cls=cl)
         else:
             ctx.add('ed.decompress', enc.hex(), expect=pts.expect_ed(m), cls=cl)
+        if rng.random() < 0.25:
+            # equality of compressed forms is equality of the 32 bytes (a non-canonical sibling is a different value)
+            other = bytearray(enc)
+            other[rng.randrange(32)] ^= 1 << rng.randrange(8)
+            sib = ref.ed_compress(m) if m else bytes(other)
+            ctx.add('ed.compress_eq', enc.hex(), enc.hex(), expect=['T', 'T'], cls='compressed-eq')
+            ctx.add('ed.compress_eq', enc.hex(), bytes(other).hex(), expect=['F', 'F'], cls='compressed-eq')
+            ctx.add('ed.compress_eq', enc.hex(), sib.hex(), expect=[B(sib == enc)] * 2, cls='compressed-eq')
     # slice decoders
     for ln in (0, 1, 31, 32, 33, 64):
         b = vals.rb(rng, ln)
